@@ -3,6 +3,7 @@ package main
 // Evaluation of specification expressions into SMT terms.
 
 import (
+	"strconv"
 	"fmt"
 	"go/constant"
 	"go/types"
@@ -1297,6 +1298,30 @@ func (ev *Env) builtinSpec(name string, argEs []Expr) (T, bool) {
 			}
 		}
 		return T{fmt.Sprintf("(select %s (iptr %s %d))", vc.heapGet(ev.st, "G_held"), base.S, index[0]), "Bool", boolT}, true
+	case "ncalls", "callarg":
+		// ncalls(F): how many times this (single-block, straight-line) function calls a function named F;
+		// callarg(F, k): the first non-receiver argument of the k-th such call, as the caller computed it
+		if ev.fr == nil || len(ev.fr.fn.Blocks) != 1 {
+			stale("%s is only available in the contract of a straight-line (single block) function", name)
+		}
+		id, ok := argEs[0].(*EIdent)
+		if !ok {
+			stale("%s: first argument must be a function name", name)
+		}
+		log := ev.fr.callLog[id.Name]
+		if name == "ncalls" {
+			return T{fmt.Sprintf("%d", len(log)), "Int", intT}, true
+		}
+		kl, ok := argEs[1].(*ENum)
+		if !ok {
+			stale("callarg: the index must be a literal")
+		}
+		k, err := strconv.Atoi(kl.Text)
+		if err != nil || k < 0 || k >= len(log) {
+			// fewer calls than the contract talks about: the clause cannot hold
+			return T{"false", "Bool", boolT}, true
+		}
+		return log[k], true
 	case "prev":
 		if ev.prevEnv == nil {
 			stale("prev() is only meaningful in a loop step clause")
